@@ -129,8 +129,8 @@ def build():
                                                   le.intersection_extent(a, b) if le.intersect(a, b) else None,
                                                   le.intersection_slices(a, b) if le.intersect(a, b) else None,
                                                   le.intersection_shift(a, b) if le.intersect(a, b) else None),
-        lambda s: dict(a=(-1, 1, -2, 1), b=(0, 3, 0, 2)),
-        alts=dict(a=[K((0, 0, 0, 0)), K((-4, -2, -4, -3)), K(np.array([-1, 1, -2, 1]))], b=[K((1, 1, 1, 1)), K((-1, 1, -2, 1))]))
+        lambda s: dict(a=np.array([-1, 1, -2, 1]), b=np.array([0, 3, 0, 2])),
+        alts=dict(a=[K(np.array([0, 0, 0, 0])), K(np.array([-4, -2, -4, -3])), K((-1, 1, -2, 1)), K([-1, 1, -2, 1])], b=[K(np.array([1, 1, 1, 1])), K(np.array([-1, 1, -2, 1])), K((0, 3, 0, 2))]))
 
     # ------------------------------------------------------------------------------------------------ planes and wavefronts
     def pupil(tag=50, seg=False, scalar=False, fit=False, ps=DX, shape=(6, 5)):
